@@ -460,13 +460,62 @@ func existsPathAssuming(fn *ssa.Function, from, target ssa.Instruction, gen func
 		sort.Strings(ks)
 		return strings.Join(ks, ",")
 	}
-	var dfs func(b *ssa.BasicBlock, as map[ssa.Value]bool, passed bool) bool
-	dfs = func(b *ssa.BasicBlock, as map[ssa.Value]bool, passed bool) bool {
-		k := key{b, sigOf(as), passed}
-		if failed[k] {
-			return false
+	// constPhiSucc: b ends in `if phi` (possibly negated) with the phi defined in b and the edge
+	// from prev carrying a constant: go/ssa builds && / || used as values (the cases of a tagless
+	// switch) this way; which successor is taken is then decided by where control came from.
+	constPhiSucc := func(b, prev *ssa.BasicBlock) int {
+		if prev == nil || len(b.Instrs) == 0 {
+			return -1
 		}
-		failed[k] = true // plain graph search over (block, assumptions) states
+		ifi, ok := b.Instrs[len(b.Instrs)-1].(*ssa.If)
+		if !ok {
+			return -1
+		}
+		v, neg := ifi.Cond, false
+		for {
+			if u, ok := v.(*ssa.UnOp); ok && u.Op == token.NOT {
+				v, neg = u.X, !neg
+				continue
+			}
+			break
+		}
+		ph, ok := v.(*ssa.Phi)
+		if !ok || ph.Block() != b {
+			return -1
+		}
+		for k, p := range b.Preds {
+			if p != prev || k >= len(ph.Edges) {
+				continue
+			}
+			if c, ok := ph.Edges[k].(*ssa.Const); ok && c.Value != nil && c.Value.Kind() == constant.Bool {
+				if constant.BoolVal(c.Value) != neg {
+					return 0
+				}
+				return 1
+			}
+		}
+		return -1
+	}
+	type pkey struct {
+		k    key
+		prev *ssa.BasicBlock
+	}
+	failedP := map[pkey]bool{}
+	var dfs func(b, prev *ssa.BasicBlock, as map[ssa.Value]bool, passed bool) bool
+	dfs = func(b, prev *ssa.BasicBlock, as map[ssa.Value]bool, passed bool) bool {
+		k := key{b, sigOf(as), passed}
+		forced := constPhiSucc(b, prev)
+		if forced >= 0 {
+			if failedP[pkey{k, prev}] {
+				return false
+			}
+			failedP[pkey{k, prev}] = true
+		} else {
+			if failed[k] {
+				return false
+			}
+			failed[k] = true // plain graph search over (block, assumptions) states
+		}
 		for _, in := range b.Instrs {
 			if in == target && passed {
 				path = append(path, b.String())
@@ -482,6 +531,9 @@ func existsPathAssuming(fn *ssa.Function, from, target ssa.Instruction, gen func
 		}
 		t, hasTest := tests[b]
 		for i, s := range b.Succs {
+			if forced >= 0 && i != forced {
+				continue // the phi's value on the edge control came in by decides
+			}
 			if passed && edgeGen != nil && edgeGen(b, i) {
 				continue
 			}
@@ -500,7 +552,7 @@ func existsPathAssuming(fn *ssa.Function, from, target ssa.Instruction, gen func
 					as2[t.v] = zero
 				}
 			}
-			if dfs(s, as2, passed) {
+			if dfs(s, b, as2, passed) {
 				path = append(path, b.String())
 				return true
 			}
@@ -515,7 +567,7 @@ func existsPathAssuming(fn *ssa.Function, from, target ssa.Instruction, gen func
 			count[rv] += 2
 		}
 	}
-	found := dfs(fn.Blocks[0], initial, from == nil)
+	found := dfs(fn.Blocks[0], nil, initial, from == nil)
 	// reverse path
 	for i, j := 0, len(path)-1; i < j; i, j = i+1, j-1 {
 		path[i], path[j] = path[j], path[i]
